@@ -10,7 +10,7 @@ from ..backend import make_backend
 RS, US, GS = "\x1e", "\x1f", "\x1d"
 UIDS = [f"00000000-0000-4000-8000-00000000000{k}" for k in (1, 2, 3, 4, 5)]
 RULES = [
-    {"title": "R1", "name": "r1", "id": UIDS[0], "logsource": {"category": "c"}, "detection": {"sel": {"fieldA": "v1"}, "condition": "sel"}},
+    {"title": "R1", "name": "r1", "id": UIDS[0], "logsource": {"category": "c", "product": "windows"}, "detection": {"sel": {"fieldA": "v1"}, "condition": "sel"}},
     {"title": "R2", "name": "r2", "id": UIDS[1], "logsource": {"category": "c"}, "detection": {"sel": {"fieldX": "v2"}, "other": {"g1": 2}, "condition": ["sel", "sel and not other"]}},
     {"title": "R3", "id": UIDS[2], "logsource": {"category": "c"}, "detection": {"sel": {"fieldA|contains": "v3"}, "condition": "sel"}},
     {"title": "R4", "name": "r4", "id": UIDS[3], "logsource": {"category": "c"}, "detection": {"sel": {"fieldB": ["v4", "w4"]}, "condition": "sel"}},
@@ -58,8 +58,10 @@ def K_of(B):
 
 def pipeline_dict(B):
     d = {"name": "c10", "priority": 10, "transformations": [], "postprocessing": [{"type": "embed", "prefix": "<", "suffix": ">"}]}
-    if B["pipe"] == "rename":
+    if B["pipe"] in ("rename", "rename_win"):
         d["transformations"].append({"type": "field_name_mapping", "mapping": {"g1": "G1", "fieldA": "FA", "fieldX": "FX", "f": "F"}})
+    if B["pipe"] == "rename_win":  # ... for windows rules only
+        d["transformations"][-1]["rule_conditions"] = [{"type": "logsource", "product": "windows"}]
     return d
 
 
